@@ -244,6 +244,9 @@ pub fn judge(text: &str, history_seed: u64, wd: &Workdir, rep: &mut Rep, second_
                 errs.push(format!("type `{}` of a grammar symbol is still missing after regeneration", m));
             }
         }
+        // Helper types (choice structs, `...Base`, `...NoO`) are restored together with the main type of their rule only:
+        // the repository's own hand-edited action files (tests/src/glr/evaluate/calc_eval_actions.rs) replace the main
+        // type and delete the helpers on purpose, so "missing" is read at the granularity of grammar symbols.
         rep.count("items_preserved", e.len() as u64);
         rep.count("items_appended", appended.len() as u64);
         if !appended.is_empty() && !e.is_empty() {
